@@ -354,6 +354,14 @@ func excludeToSpans(v *Version) (span, span, error) {
 		str: "0.0.0",
 	}
 	zero.num = zero.buf[:3]
+	if v.ext != nil {
+		// In a system with its own comparator a version built by hand
+		// has no details and falls back to comparing the numbers alone:
+		// it compared equal to every 0.postN, 0aN and 0.devN.
+		if z, err := v.sys.Parse("0.0.0"); err == nil {
+			zero = z
+		}
+	}
 	inf := &Version{
 		sys: v.sys,
 		str: "∞.∞.∞",
